@@ -385,17 +385,36 @@ func c18Product(t *testing.T, r *vres.Report, dir string) {
 	}
 	pairs := evals
 	if th {
-		// full product over at most two valid and two invalid fragments per section
+		// all triples of fragments over an all-valid rest
+		for i := 0; i < n; i++ {
+			for fi := range c18Sections[i].frags {
+				for j := i + 1; j < n; j++ {
+					for fj := range c18Sections[j].frags {
+						for k := j + 1; k < n; k++ {
+							for fk := range c18Sections[k].frags {
+								if !mine() {
+									continue
+								}
+								c := append([]int(nil), base...)
+								c[i], c[j], c[k] = fi, fj, fk
+								check(c, false)
+							}
+						}
+					}
+				}
+			}
+		}
+		// full product over the first valid and the first invalid fragment of every section
 		var lim [][]int
 		for _, s := range c18Sections {
 			var idxs []int
 			nv, ni := 0, 0
 			for fi, f := range s.frags {
-				if f.ok && nv < 2 {
+				if f.ok && nv < 1 {
 					idxs = append(idxs, fi)
 					nv++
 				}
-				if !f.ok && ni < 2 {
+				if !f.ok && ni < 1 {
 					idxs = append(idxs, fi)
 					ni++
 				}
@@ -420,7 +439,7 @@ func c18Product(t *testing.T, r *vres.Report, dir string) {
 	}
 	r.AddScenario(vres.Scenario{Name: "section-product-vs-reference", Engine: "W", Evaluations: evals, Distinct: int64(outs.N()), Outcomes: outs.N(),
 		Rule:       "files assembled from per-section menus of documented valid forms and one invalid form per documented constraint; the real LoadConfig must accept exactly the all-valid files; distinct = (number of invalid sections, accepted) classes",
-		Bound:      fmt.Sprintf("all pairs of fragments over an all-valid rest (%d files this shard, %d of them built in-process)%s", pairs, built, map[bool]string{true: " + full product over <=2 valid and <=2 invalid fragments per section", false: ""}[th]),
+		Bound:      fmt.Sprintf("all pairs of fragments over an all-valid rest (%d files this shard, %d of them built in-process)%s", pairs, built, map[bool]string{true: " + all triples over an all-valid rest + full product over one valid and one invalid fragment per section", false: ""}[th]),
 		Exhaustive: true, Sample: sample, Extra: map[string]interface{}{"wall_s": time.Since(start).Seconds(), "sections": n}})
 }
 
